@@ -3,8 +3,8 @@ from xsym.scenario import Scenario
 
 EXPLANATION = ('Producer/consumer threads on the real queue with solver-chosen context switches at every memory access; after a sequential drain: '
                'conservation, no duplication, per-producer FIFO order, and an empty report only if the queue could have been empty.')
-ASSUMPTIONS = ['reclaimer = lock_free_ref_count (quick); michael_scott_queue only in the quick tier: ramalhete_queue and nikolaev_queue scenarios '
-               'produce formulas of millions of terms (2 push || 2 pop with entries_per_node<2>) and are attempted in the thorough tier with 1 push || 1 pop only',
+ASSUMPTIONS = ['reclaimer = lock_free_ref_count (quick); quick tier: michael_scott_queue with up to 2 push || 2 pop, ramalhete_queue and nikolaev_queue with 1 push || 1 pop; '
+               '2 push || 2 pop for those two in the thorough tier (7 min per scenario)',
                '2 threads, K=2-3 rounds, <= 2 operations per thread; SC only']
 TIMEOUT = {'quick': 900, 'thorough': 3000}
 MT = 'Q/queue_mt.cpp'
@@ -14,6 +14,9 @@ def scenarios(tier):
     s = [Scenario('ms-lfrc-1push-1pop-K2', MT, ['QSEL=4', 'RECL=10', 'NPUSH1=1', 'NPOP2=1'], threads=2, K=2, unwind=3, cover=[1, 2]),
          Scenario('ms-lfrc-2push-1pop-K2', MT, ['QSEL=4', 'RECL=10', 'NPUSH1=2', 'NPOP2=1'], threads=2, K=2, unwind=3, cover=[1, 2]),
          Scenario('ms-lfrc-prefill1-1push-2pop-K2', MT, ['QSEL=4', 'RECL=10', 'PREFILL=1', 'NPUSH1=1', 'NPOP2=2'], threads=2, K=2, unwind=3, cover=[1, 2])]
+    # reachable since the engine changes of DESIGN.md 10.6 (before: millions of terms)
+    s.append(Scenario('ramalhete-lfrc-1push-1pop-K2', MT, ['QSEL=5', 'RECL=10', 'NPUSH1=1', 'NPOP2=1'], threads=2, K=2, unwind=3, cover=[1, 2]))
+    s.append(Scenario('nikolaev-lfrc-1push-1pop-K2', MT, ['QSEL=6', 'RECL=10', 'NPUSH1=1', 'NPOP2=1'], threads=2, K=2, unwind=3, cover=[1, 2]))
     # deterministic configuration instances of ramalhete_queue (decided by constant folding, replayed natively)
     s.append(Scenario('ramalhete-epn4-fifo-across-nodes', 'Q/queue_seq.cpp', ['QSEL=5', 'RECL=10', 'EPN=4', 'FIXED_SEQ=9'], unwind=4, cover=[1]))
     s.append(Scenario('ramalhete-epn22-fifo', 'Q/queue_seq.cpp', ['QSEL=5', 'RECL=10', 'EPN=22', 'FIXED_SEQ=5'], unwind=4, cover=[1],
@@ -22,7 +25,8 @@ def scenarios(tier):
         s += [Scenario('ms-lfrc-1push-1pop-K3', MT, ['QSEL=4', 'RECL=10', 'NPUSH1=1', 'NPOP2=1'], threads=2, K=3, unwind=3, cover=[1, 2]),
               Scenario('ms-lfrc-2push-2pop-K3', MT, ['QSEL=4', 'RECL=10', 'NPUSH1=2', 'NPOP2=2'], threads=2, K=3, unwind=3, cover=[1, 2]),
               Scenario('ms-lfrc-producers-K2', MT, ['QSEL=4', 'RECL=10', 'NPUSH1=1', 'NPUSH2=1', 'NPOP2=1'], threads=2, K=2, unwind=3, cover=[1, 2]),
-              Scenario('ramalhete-lfrc-1push-1pop-K2', MT, ['QSEL=5', 'RECL=10', 'NPUSH1=1', 'NPOP2=1'], threads=2, K=2, unwind=3, cover=[1, 2]),
-              Scenario('nikolaev-lfrc-1push-1pop-K2', MT, ['QSEL=6', 'RECL=10', 'NPUSH1=1', 'NPOP2=1'], threads=2, K=2, unwind=3, cover=[1, 2]),
+              Scenario('ramalhete-lfrc-2push-2pop-K2', MT, ['QSEL=5', 'RECL=10', 'NPUSH1=2', 'NPOP2=2'], threads=2, K=2, unwind=3, cover=[1, 2]),
+              Scenario('nikolaev-lfrc-2push-2pop-K2', MT, ['QSEL=6', 'RECL=10', 'NPUSH1=2', 'NPOP2=2'], threads=2, K=2, unwind=3, cover=[1, 2]),
+              Scenario('nikolaev-lfrc-1push-1pop-K3', MT, ['QSEL=6', 'RECL=10', 'NPUSH1=1', 'NPOP2=1'], threads=2, K=3, unwind=3, cover=[1, 2]),
               Scenario('ms-hp-1push-1pop-K2', MT, ['QSEL=4', 'RECL=1', 'HPK=3', 'NPUSH1=1', 'NPOP2=1'], threads=2, K=2, unwind=3, cover=[1, 2])]
     return s
